@@ -201,6 +201,9 @@ impl<T: Elem> USet for W64<T> {
         let r = self.0.verif_inner().verif_repr();
         (r.word, r.heap)
     }
+    fn header(&self) -> (usize, Option<(usize, usize, u64)>) {
+        self.0.verif_inner().verif_header()
+    }
     fn nexts(&self, which: It, pos: usize) -> (Vec<u64>, bool) {
         it_typed!(self, which, pos, nexts_t)
     }
@@ -369,6 +372,9 @@ impl USet for WUsize {
     fn repr(&self) -> (usize, Heap) {
         let r = self.0.verif_inner().verif_repr();
         (r.word, r.heap)
+    }
+    fn header(&self) -> (usize, Option<(usize, usize, u64)>) {
+        self.0.verif_inner().verif_header()
     }
     fn nexts(&self, which: It, pos: usize) -> (Vec<u64>, bool) {
         match which {
